@@ -1074,6 +1074,16 @@ theorem getNodeInt32_err {n : Node} {e : Err} (h : getNodeInt32 n = .error e) : 
     simp
   · cases h; simp
 
+private theorem decimal_tail_err {rd : F64} {p sc : Int} {e : Err}
+    (h : (if rd.isInf = true then (Except.error Err.verbose : Except Err F64) else
+          if (decide ((countNonZeroDigits (Decimal.formatF rd) : Int) > 0) &&
+              decide ((countNonZeroDigits (Decimal.formatF rd) : Int) > p - sc)) = true
+          then Except.error Err.verbose else Except.ok rd) = .error e) : e ≠ .invalid := by
+  split at h
+  · cases h; simp
+  · split at h <;> cases h
+    simp
+
 theorem executeDecimalMethod_err {l r : Option Node} {num : F64} {e : Err}
     (h : executeDecimalMethod l r num = .error e) : e ≠ .invalid := by
   unfold executeDecimalMethod at h
@@ -1095,12 +1105,7 @@ theorem executeDecimalMethod_err {l r : Option Node} {num : F64} {e : Err}
               cases hsc; exact getNodeInt32_err he''
             · split at hsc <;> cases hsc
               simp
-        · have hv : ∀ (b : Bool) (x : F64), (if b = true then (Except.error Err.verbose : Except Err F64) else .ok x) = .error e →
-              e ≠ .invalid := by
-            intro b x hb
-            cases b <;> simp at hb
-            cases hb; simp
-          exact hv _ _ h
+        · exact decimal_tail_err h
 
 theorem convNumber_err {dec : Option (Option Node × Option Node)} {v : Item} {e : Err}
     (h : convNumber dec v = .viaReturnError e) : e ≠ .invalid := by
